@@ -250,11 +250,30 @@ func TestC17(t *testing.T) {
 				d := docs[len(docs)-1]
 				docs = append(docs, d[:len(d)*2/3]) // truncated: may be invalid
 			}
+			if format == "ttml" && len(docs) > 0 {
+				// something after the root element: a comment, a processing instruction, a second root, junk
+				for i, tail := range []string{"\n<!-- trailing comment -->\n", "<?app done?>", "\n<tt xmlns=\"http://www.w3.org/ns/ttml\"><body><div><p begin=\"1s\" end=\"2s\">second root</p></div></body></tt>", "junk after the document <"} {
+					if thorough() || i%2 == int(cfgSeed%2) {
+						docs = append(docs, append(append([]byte(nil), docs[0]...), tail...))
+					}
+				}
+			}
+			if format == "stl" {
+				// a file with a user-data block between two subtitle blocks
+				for i := 1; i < 200; i++ {
+					d := gen.Example(1000 + i)
+					ud := false
+					for o := 1024; o+256 <= len(d); o += 128 {
+						ud = ud || d[o+3] == 0xfe
+					}
+					if ud && len(d) <= 4096 {
+						docs = append(docs, d)
+						break
+					}
+				}
+			}
 			for _, doc := range docs {
 				for _, seekable := range []bool{true, false} {
-					if format != "ts" && !seekable {
-						continue
-					}
 					if job%cfgShards == cfgShard {
 						c := c17Case{Format: format, Doc: doc, Seekable: seekable}
 						ref := readCanon(format, c.reader(nil, false), c.Opts)
